@@ -76,7 +76,12 @@ class FlowMixin:
             g.susp = sg
             self.havoc_locals(g, assigned_names(stmt.body) | (assigned_names([stmt.target]) if for_ctx else set()), back[0][0])
             if may_suspend(stmt.body):
+                t_before = self.loop_field(g, "time")
                 self.havoc_heap(g, full=True, reason=label)
+                g.assume(self.loop_field(g, "time") >= t_before)
+                g.inv_base = g.snap()
+                g.last_susp = g.inv_base
+                self.assume_invariants_eagerly(g)
             else:
                 self.havoc_keys(g, written)
             idx = None
